@@ -170,7 +170,7 @@ func valID(v ssa.Value) string {
 		return "?"
 	}
 	if in, ok := v.(ssa.Instruction); ok && in.Parent() != nil {
-		return fmt.Sprintf("%s@%s", v.Name(), shortFn(in.Parent()))
+		return fmt.Sprintf("%s@{%s}", v.Name(), shortFn(in.Parent()))
 	}
 	return v.Name()
 }
